@@ -789,3 +789,449 @@ Proof.
   intros Hin Hne. unfold group_row, obj_of_list. cbn [fst snd].
   rewrite lookup_obj_set_other by exact Hne. apply lookup_obj_merge_key. exact Hin.
 Qed.
+
+(* ================================================================== *)
+(* Part 4: the SELECT pipeline                                          *)
+(* ================================================================== *)
+
+(* the value of one aggregate call over the member rows [ms] *)
+Definition agg_value (ms : list value) (f : aggfn) (arg : option (list string)) : res value :=
+  let! col := match arg with
+              | None => Ok None
+              | Some p => let! v := reader p (VArr ms) in
+                          match v with VArr l => Ok (Some l) | _ => Err end
+              end in
+  agg_apply f ms col.
+
+Lemma eval_agg_value ms f arg : eval_agg ms f arg = let! v := agg_value ms f arg in Ok (RVal v).
+Proof.
+  unfold eval_agg, agg_value.
+  destruct (match arg with
+            | None => Ok None
+            | Some p => let! v := reader p (VArr ms) in
+                        match v with VArr l => Ok (Some l) | _ => Err end
+            end); reflexivity.
+Qed.
+
+Lemma agg_value_count_star ms : agg_value ms ACount None = Ok (count_val (List.length ms)).
+Proof. reflexivity. Qed.
+
+Lemma agg_value_column ms f c :
+  obj_rows ms = true -> numeric_col (map (column c) ms) = true ->
+  agg_value ms f (Some [c]) = res_of_option (agg_spec f (List.length ms) (Some (map (column c) ms))).
+Proof.
+  intros Ho Hn. unfold agg_value. rewrite reader_arr, (mapM_reader_column c ms Ho). cbn [bind].
+  apply agg_apply_spec. exact Hn.
+Qed.
+
+(* no member: COUNT = 0, the others NULL, whatever the argument *)
+Lemma agg_value_empty f arg :
+  agg_value [] f arg =
+  match f, arg with
+  | ACount, _ => Ok (VNum 0%float)
+  | _, None => Err
+  | _, Some _ => Ok VNull
+  end.
+Proof.
+  unfold agg_value. destruct arg as [[|k rest]|].
+  - destruct f; reflexivity.
+  - rewrite reader_arr. destruct f; reflexivity.
+  - destruct f; reflexivity.
+Qed.
+
+(* what one select item contributes to the output object, given the member rows the aggregates
+   read and the current row the columns read *)
+Definition item_cells (ms : list value) (cur : row) (it : sel_item stmt) : res (list (string * value)) :=
+  match it with
+  | IStar => Ok cur
+  | IExpr (EAgg f arg) name => let! v := agg_value ms f arg in Ok [(name, v)]
+  | IExpr (ECol p) name => let! v := reader p (VObj cur) in Ok [(name, v)]
+  | _ => OutOfModel
+  end.
+
+Definition simple_item (it : sel_item stmt) : bool :=
+  match it with
+  | IStar => true
+  | IExpr (EAgg _ _) _ => true
+  | IExpr (ECol _) _ => true
+  | _ => false
+  end.
+
+Definition item_name (it : sel_item stmt) : string :=
+  match it with IExpr _ name => name | IStar => "*"%string end.
+
+Lemma obj_merge_app acc a b : obj_merge acc (a ++ b) = obj_merge (obj_merge acc a) b.
+Proof. unfold obj_merge. apply fold_left_app. Qed.
+
+Lemma select_expr_simple (E : env stmt) ms cur items : forall acc,
+  e_hard E = false ->
+  (forall f arg, e_agg E f arg cur = eval_agg ms f arg) ->
+  forallb simple_item items = true ->
+  select_expr E cur items acc =
+  let! kvss := mapM (item_cells ms cur) items in Ok (obj_merge acc (List.concat kvss)).
+Proof.
+  intros acc Hh Hagg. revert acc.
+  induction items as [|it items IH]; intros acc Hs; [reflexivity|].
+  cbn [forallb] in Hs. apply andb_true_iff in Hs. destruct Hs as [Hi Hs].
+  destruct it as [|e name].
+  - cbn [select_expr mapM item_cells bind]. rewrite IH by exact Hs.
+    destruct (mapM (item_cells ms cur) items); cbn [bind]; try reflexivity.
+    cbn [List.concat]. rewrite obj_merge_app. reflexivity.
+  - destruct e; try discriminate.
+    + (* column *)
+      cbn [select_expr eval mapM item_cells bind]. unfold col_path. rewrite Hh.
+      cbn [value_of]. destruct (reader path (VObj cur)); cbn [bind]; try reflexivity.
+      rewrite IH by exact Hs.
+      destruct (mapM (item_cells ms cur) items); cbn [bind]; try reflexivity.
+    + (* aggregate *)
+      cbn [select_expr eval mapM item_cells]. rewrite Hagg, eval_agg_value.
+      destruct (agg_value ms f arg); cbn [bind value_of]; try reflexivity.
+      rewrite IH by exact Hs.
+      destruct (mapM (item_cells ms cur) items); cbn [bind]; try reflexivity.
+Qed.
+
+Lemma lookup_obj_merge_notin k kvs : forall acc,
+  ~ In k (map fst kvs) -> lookup k (obj_merge acc kvs) = lookup k acc.
+Proof.
+  unfold obj_merge. induction kvs as [|[k' v'] kvs IH]; intros acc Hn; [reflexivity|].
+  cbn [fold_left fst snd]. rewrite IH.
+  - apply lookup_obj_set_other. intros ->. apply Hn. left. reflexivity.
+  - intros Hin. apply Hn. right. exact Hin.
+Qed.
+
+Lemma lookup_obj_merge_nodup k v kvs : forall acc,
+  NoDup (map fst kvs) -> In (k, v) kvs -> lookup k (obj_merge acc kvs) = Some v.
+Proof.
+  induction kvs as [|[k' v'] kvs IH]; intros acc Hnd Hin; [destruct Hin|].
+  cbn [map fst] in Hnd. inversion Hnd as [|? ? Hnot Hnd']; subst.
+  destruct Hin as [Heq|Hin].
+  - inversion Heq; subst. change (obj_merge acc ((k, v) :: kvs)) with (obj_merge (obj_set k v acc) kvs).
+    rewrite lookup_obj_merge_notin by exact Hnot. apply lookup_obj_set_same.
+  - change (obj_merge acc ((k', v') :: kvs)) with (obj_merge (obj_set k' v' acc) kvs).
+    apply IH; assumption.
+Qed.
+
+(* all-aggregate select lists: one cell per item, named as the item *)
+Lemma mapM_cells_agg ms cur items : forall kvss,
+  forallb is_agg_item items = true ->
+  mapM (item_cells ms cur) items = Ok kvss ->
+  map fst (List.concat kvss) = map item_name items /\
+  forall f arg name, In (IExpr (EAgg f arg) name) items ->
+    exists v, agg_value ms f arg = Ok v /\ In (name, v) (List.concat kvss).
+Proof.
+  induction items as [|it items IH]; intros kvss Ha Hm.
+  - cbn [mapM] in Hm. inversion Hm; subst. split; [reflexivity|]. intros ? ? ? [].
+  - cbn [forallb] in Ha. apply andb_true_iff in Ha. destruct Ha as [Hi Ha].
+    destruct it as [|e name]; [discriminate|]. destruct e; try discriminate.
+    cbn [mapM item_cells] in Hm.
+    destruct (agg_value ms f arg) as [v| | |] eqn:Hv; cbn [bind] in Hm; try discriminate.
+    destruct (mapM (item_cells ms cur) items) as [rest| | |] eqn:Hr; cbn [bind] in Hm; try discriminate.
+    inversion Hm; subst. destruct (IH rest Ha eq_refl) as [Hn Hin].
+    split.
+    + cbn [List.concat app map fst item_name]. f_equal. exact Hn.
+    + intros f' arg' name' [Heq|Hin'].
+      * inversion Heq; subst. exists v. split; [exact Hv|left; reflexivity].
+      * destruct (Hin _ _ _ Hin') as (v' & Hv' & Hi'). exists v'. split; [exact Hv'|right; exact Hi'].
+Qed.
+
+Lemma is_agg_simple items : forallb is_agg_item items = true -> forallb simple_item items = true.
+Proof.
+  induction items as [|it items IH]; cbn [forallb]; intros H; [reflexivity|].
+  apply andb_true_iff in H. destruct H as [Hi Hs]. rewrite IH by exact Hs.
+  destruct it as [|e name]; [discriminate|]. destruct e; try discriminate. reflexivity.
+Qed.
+
+Lemma all_aggregate_forall (items : list (sel_item stmt)) :
+  all_aggregate items = true -> forallb is_agg_item items = true /\ items <> [].
+Proof. destruct items; [discriminate|]. intros H. split; [exact H|discriminate]. Qed.
+
+(* ---- HAVING ---- *)
+
+Definition out_row (g : group) : value := VObj (group_row g).
+
+Lemma exec_group_by_nogroup (E : env stmt) s rows : s_group s = [] -> exec_group_by E s rows = Ok rows.
+Proof. intros H. unfold exec_group_by. rewrite H. reflexivity. Qed.
+
+Lemma exec_group_by_having (E : env stmt) s rows c cs gs h :
+  s_group s = c :: cs ->
+  group_rows (c :: cs) rows [] = Ok gs ->
+  (forall g, In g gs -> eval_cond E (group_row g) (s_having s) = Ok (h g)) ->
+  exec_group_by E s rows = Ok (map out_row (filter h gs)).
+Proof.
+  intros Hg Hgs Hh. unfold exec_group_by. rewrite Hg, Hgs. cbn [bind].
+  match goal with |- (let! kept := ?loop gs in Ok kept) = _ =>
+    assert (Hl : loop gs = Ok (map out_row (filter h gs))) end.
+  { clear Hgs. induction gs as [|g gs IH]; [reflexivity|].
+    rewrite (Hh g (or_introl eq_refl)). cbn [bind].
+    rewrite IH by (intros; apply Hh; right; assumption). cbn [bind filter].
+    destruct (h g); reflexivity. }
+  rewrite Hl. reflexivity.
+Qed.
+
+Lemma exec_group_by_no_having (E : env stmt) s rows c cs gs :
+  s_group s = c :: cs -> s_having s = None ->
+  group_rows (c :: cs) rows [] = Ok gs ->
+  exec_group_by E s rows = Ok (map out_row gs).
+Proof.
+  intros Hg Hn Hgs.
+  rewrite (exec_group_by_having E s rows c cs gs (fun _ => true) Hg Hgs).
+  - f_equal. f_equal. clear. induction gs as [|g gs IH]; cbn [filter]; [reflexivity|]. f_equal. exact IH.
+  - intros g _. rewrite Hn. reflexivity.
+Qed.
+
+Lemma exec_group_by_panic (E : env stmt) s rows c cs :
+  s_group s = c :: cs -> group_rows (c :: cs) rows [] = Panic -> exec_group_by E s rows = Panic.
+Proof. intros Hg Hp. unfold exec_group_by. rewrite Hg, Hp. reflexivity. Qed.
+
+(* ---- SELECT over group rows and over the whole table ---- *)
+
+Lemma exec_select_groups (E : env stmt) s c cs gs :
+  s_group s = c :: cs ->
+  exec_select E s (map out_row gs) =
+  mapM (fun g => let! r := select_expr E (group_row g) (s_items s) [] in Ok (VObj r)) gs.
+Proof.
+  intros Hg. unfold exec_select. rewrite Hg. cbn [andb].
+  induction gs as [|g gs IH]; [reflexivity|].
+  cbn [map mapM out_row]. rewrite IH. reflexivity.
+Qed.
+
+Lemma exec_select_whole (E : env stmt) s rows :
+  s_group s = [] -> all_aggregate (s_items s) = true ->
+  exec_select E s rows = let! r := select_expr E [] (s_items s) [] in Ok [VObj r].
+Proof. intros Hg Ha. unfold exec_select. rewrite Hg, Ha. reflexivity. Qed.
+
+Section Pipeline.
+  Variable rec : qctx -> job -> res value.
+  Variable call : string -> string -> list value -> row -> res raw.
+  Variable join : jointype -> jstrategy -> list value -> list value -> string -> string ->
+                  expr stmt -> row -> res (list value).
+
+  Notation env_of := (mk_env rec call join).
+
+  Lemma mk_env_hard ctx s filtered : e_hard (env_of ctx s filtered) = false.
+  Proof. reflexivity. Qed.
+
+  (* no GROUP BY: every aggregate call reads exactly the rows that passed WHERE *)
+  Lemma mk_env_agg_nogroup ctx s filtered f arg cur :
+    s_group s = [] -> e_agg (env_of ctx s filtered) f arg cur = eval_agg filtered f arg.
+  Proof. intros H. cbn [mk_env e_agg]. rewrite H. reflexivity. Qed.
+
+  (* GROUP BY: on a group's row every aggregate call reads exactly that group's members *)
+  Lemma mk_env_agg_group ctx s filtered f arg g :
+    s_group s <> [] -> e_agg (env_of ctx s filtered) f arg (group_row g) = eval_agg (snd g) f arg.
+  Proof.
+    intros H. cbn [mk_env e_agg]. destruct (s_group s); [contradiction|].
+    rewrite lookup_star_group_row. reflexivity.
+  Qed.
+
+  (* a whole-table aggregate query yields exactly one row computed over [filtered] *)
+  Lemma exec_select_whole_table ctx s filtered rows :
+    s_group s = [] -> all_aggregate (s_items s) = true ->
+    exec_select (env_of ctx s filtered) s rows =
+    let! kvss := mapM (item_cells filtered []) (s_items s) in
+    Ok [VObj (obj_of_list (List.concat kvss))].
+  Proof.
+    intros Hg Ha. rewrite exec_select_whole by assumption.
+    destruct (all_aggregate_forall _ Ha) as [Hf _].
+    rewrite (select_expr_simple _ filtered [] (s_items s) [] (mk_env_hard _ _ _)).
+    - destruct (mapM (item_cells filtered []) (s_items s)); reflexivity.
+    - intros f arg. apply mk_env_agg_nogroup. exact Hg.
+    - apply is_agg_simple. exact Hf.
+  Qed.
+
+  (* ... and each call is computed from its own argument *)
+  Lemma whole_table_independent ctx s filtered rows out f arg name :
+    s_group s = [] -> all_aggregate (s_items s) = true ->
+    NoDup (map item_name (s_items s)) ->
+    In (IExpr (EAgg f arg) name) (s_items s) ->
+    exec_select (env_of ctx s filtered) s rows = Ok out ->
+    exists r v, out = [VObj r] /\ agg_value filtered f arg = Ok v /\ lookup name r = Some v.
+  Proof.
+    intros Hg Ha Hnd Hin Hex. rewrite exec_select_whole_table in Hex by assumption.
+    destruct (mapM (item_cells filtered []) (s_items s)) as [kvss| | |] eqn:Hm; try discriminate.
+    cbn [bind] in Hex. inversion Hex; subst.
+    destruct (all_aggregate_forall _ Ha) as [Hf _].
+    destruct (mapM_cells_agg _ _ _ _ Hf Hm) as [Hn Hall].
+    destruct (Hall _ _ _ Hin) as (v & Hv & Hi).
+    eexists. exists v. split; [reflexivity|]. split; [exact Hv|].
+    apply lookup_obj_merge_nodup; [rewrite Hn; exact Hnd|exact Hi].
+  Qed.
+
+  (* GROUP BY: each output row is computed from its group alone *)
+  Lemma exec_select_group_rows ctx s filtered c cs gs :
+    s_group s = c :: cs -> forallb simple_item (s_items s) = true ->
+    exec_select (env_of ctx s filtered) s (map out_row gs) =
+    mapM (fun g => let! kvss := mapM (item_cells (snd g) (group_row g)) (s_items s) in
+                   Ok (VObj (obj_of_list (List.concat kvss)))) gs.
+  Proof.
+    intros Hg Hs. rewrite (exec_select_groups _ s c cs gs Hg).
+    induction gs as [|g gs IH]; [reflexivity|]. cbn [mapM]. rewrite IH. f_equal.
+    rewrite (select_expr_simple _ (snd g) (group_row g) (s_items s) [] (mk_env_hard _ _ _)).
+    - destruct (mapM (item_cells (snd g) (group_row g)) (s_items s)); reflexivity.
+    - intros f arg. apply mk_env_agg_group. rewrite Hg. discriminate.
+    - exact Hs.
+  Qed.
+
+  (* ---- WHERE, then GROUP BY ---- *)
+
+  Definition where_ok (E : env stmt) (s : select stmt) (w : value -> bool) (from : list value) : Prop :=
+    forall r, In r from -> exists kv, r = VObj kv /\ eval_cond E kv (s_where s) = Ok (w r).
+
+  Lemma filter_rows_objs ctx s (E : env stmt) w from :
+    where_ok E s w from -> filter_rows rec ctx s E from = Ok (filter w from).
+  Proof.
+    induction from as [|r from IH]; intros H; [reflexivity|].
+    destruct (H r (or_introl eq_refl)) as (kv & -> & Hw).
+    change (filter_rows rec ctx s E (VObj kv :: from)) with
+      (let! keep := eval_cond E kv (s_where s) in
+       let! rest := filter_rows rec ctx s E from in
+       Ok (if keep then VObj kv :: rest else rest)).
+    rewrite Hw. cbn [bind]. rewrite IH by (intros r' Hr'; apply H; right; exact Hr').
+    cbn [bind filter]. destruct (w (VObj kv)); reflexivity.
+  Qed.
+
+  Definition drop_where (s : select stmt) : select stmt :=
+    {| s_with := s_with s; s_from := s_from s; s_where := None; s_group := s_group s;
+       s_having := s_having s; s_items := s_items s; s_distinct := s_distinct s;
+       s_order := s_order s; s_limit := s_limit s; s_offset := s_offset s |}.
+
+  Lemma filter_true {A} (l : list A) : filter (fun _ => true) l = l.
+  Proof. induction l as [|a l IH]; cbn [filter]; [reflexivity|]. f_equal. exact IH. Qed.
+
+  (* the query with WHERE = the query without WHERE run over the rows that passed *)
+  Lemma run_select_where ctx s w from :
+    where_ok (env_of ctx s []) s w from ->
+    run_select rec call join ctx s (Some from) =
+    run_select rec call join ctx (drop_where s) (Some (filter w from)).
+  Proof.
+    intros H. unfold run_select.
+    rewrite (filter_rows_objs ctx s _ w from H).
+    rewrite (filter_rows_objs ctx (drop_where s) _ (fun _ => true) (filter w from)).
+    - rewrite filter_true. reflexivity.
+    - intros r Hr. apply filter_In in Hr. destruct Hr as [Hr _].
+      destruct (H r Hr) as (kv & -> & _). exists kv. split; reflexivity.
+  Qed.
+
+  (* grouping, HAVING, select list and every later stage see only the rows that passed WHERE *)
+  Lemma run_select_sees_filtered ctx s w from :
+    where_ok (env_of ctx s []) s w from ->
+    run_select rec call join ctx s (Some from) =
+    catch_panic
+      (let filtered := filter w from in
+       let E := env_of ctx s filtered in
+       let! grouped := exec_group_by E s filtered in
+       let! selected := exec_select E s grouped in
+       let! ordered := exec_order_by (s_order s) (exec_distinct (s_distinct s) selected) in
+       let! win := window ordered (List.length ordered) (s_limit s) (s_offset s) in
+       Ok (VArr win)).
+  Proof. intros H. unfold run_select. rewrite (filter_rows_objs ctx s _ w from H). reflexivity. Qed.
+End Pipeline.
+
+(* ================================================================== *)
+(* Part 5: composites                                                   *)
+(* ================================================================== *)
+
+(* GROUP BY + HAVING against the specification *)
+Lemma exec_group_by_spec (FL : FloatEqLaws) (E : env stmt) s rows c cs h :
+  s_group s = c :: cs -> rows_ok (c :: cs) rows = true ->
+  (forall g, In g (group_spec (c :: cs) rows) -> eval_cond E (group_row g) (s_having s) = Ok (h g)) ->
+  exec_group_by E s rows = Ok (map out_row (filter h (group_spec (c :: cs) rows))).
+Proof.
+  intros Hg Hr Hh. eapply exec_group_by_having; [exact Hg| |exact Hh].
+  apply group_rows_spec; assumption.
+Qed.
+
+Lemma exec_group_by_spec_no_having (FL : FloatEqLaws) (E : env stmt) s rows c cs :
+  s_group s = c :: cs -> s_having s = None -> rows_ok (c :: cs) rows = true ->
+  exec_group_by E s rows = Ok (map out_row (group_spec (c :: cs) rows)).
+Proof.
+  intros Hg Hn Hr. eapply exec_group_by_no_having; [exact Hg|exact Hn|].
+  apply group_rows_spec; assumption.
+Qed.
+
+Lemma exec_group_by_uncomparable (E : env stmt) s c cs kv1 kv2 rest :
+  s_group s = c :: cs ->
+  both_containers (column c (VObj kv1)) (column c (VObj kv2)) = true ->
+  exec_group_by E s (VObj kv1 :: VObj kv2 :: rest) = Panic.
+Proof.
+  intros Hg Hb. eapply exec_group_by_panic; [exact Hg|].
+  apply group_rows_uncomparable. exact Hb.
+Qed.
+
+Section Composite.
+  Variable rec : qctx -> job -> res value.
+  Variable call : string -> string -> list value -> row -> res raw.
+  Variable join : jointype -> jstrategy -> list value -> list value -> string -> string ->
+                  expr stmt -> row -> res (list value).
+  Notation env_of := (mk_env rec call join).
+
+  (* the whole grouped query: WHERE, then the textbook groups of the survivors, then HAVING, then
+     one output row per remaining group computed from that group alone *)
+  Lemma run_select_grouped (FL : FloatEqLaws) ctx s w h from c cs :
+    s_group s = c :: cs ->
+    forallb simple_item (s_items s) = true ->
+    where_ok (env_of ctx s []) s w from ->
+    rows_ok (c :: cs) (filter w from) = true ->
+    (forall g, In g (group_spec (c :: cs) (filter w from)) ->
+       eval_cond (env_of ctx s (filter w from)) (group_row g) (s_having s) = Ok (h g)) ->
+    run_select rec call join ctx s (Some from) =
+    catch_panic
+      (let! selected :=
+         mapM (fun g => let! kvss := mapM (item_cells (snd g) (group_row g)) (s_items s) in
+                        Ok (VObj (obj_of_list (List.concat kvss))))
+              (filter h (group_spec (c :: cs) (filter w from))) in
+       let! ordered := exec_order_by (s_order s) (exec_distinct (s_distinct s) selected) in
+       let! win := window ordered (List.length ordered) (s_limit s) (s_offset s) in
+       Ok (VArr win)).
+  Proof.
+    intros Hg Hs Hw Hr Hh.
+    rewrite (run_select_sees_filtered rec call join ctx s w from Hw). cbv zeta.
+    rewrite (exec_group_by_spec FL _ s _ c cs h Hg Hr Hh). cbn [bind].
+    rewrite (exec_select_group_rows rec call join ctx s _ c cs _ Hg Hs). reflexivity.
+  Qed.
+
+  Lemma window_single x : window [x] 1 None None = Ok [x].
+  Proof. reflexivity. Qed.
+
+  Lemma exec_order_by_single keys x : exec_order_by keys [x] = Ok [x].
+  Proof. destruct keys; reflexivity. Qed.
+
+  Lemma exec_distinct_single d x : exec_distinct d [x] = [x].
+  Proof. destruct d; reflexivity. Qed.
+
+  (* the whole ungrouped all-aggregate query: exactly one row, computed over the rows that passed *)
+  Lemma run_select_whole_table ctx s w from :
+    s_group s = [] -> all_aggregate (s_items s) = true ->
+    s_limit s = None -> s_offset s = None ->
+    where_ok (env_of ctx s []) s w from ->
+    run_select rec call join ctx s (Some from) =
+    catch_panic
+      (let! kvss := mapM (item_cells (filter w from) []) (s_items s) in
+       Ok (VArr [VObj (obj_of_list (List.concat kvss))])).
+  Proof.
+    intros Hg Ha Hl Ho Hw.
+    rewrite (run_select_sees_filtered rec call join ctx s w from Hw). cbv zeta.
+    rewrite exec_group_by_nogroup by exact Hg. cbn [bind].
+    rewrite exec_select_whole_table by assumption.
+    destruct (mapM (item_cells (filter w from) []) (s_items s)); cbn [bind]; try reflexivity.
+    rewrite exec_distinct_single, exec_order_by_single. cbn [bind List.length].
+    rewrite Hl, Ho, window_single. reflexivity.
+  Qed.
+
+  (* SUM(a), SUM(b) => (Σa, Σb) *)
+  Lemma two_sums ctx s filtered rows a b n1 n2 :
+    s_group s = [] ->
+    s_items s = [IExpr (EAgg ASum (Some [a])) n1; IExpr (EAgg ASum (Some [b])) n2] ->
+    obj_rows filtered = true ->
+    numeric_col (map (column a) filtered) = true ->
+    numeric_col (map (column b) filtered) = true ->
+    exec_select (env_of ctx s filtered) s rows =
+    Ok [VObj (obj_set n2 (null_or fsum (map (column b) filtered))
+             (obj_set n1 (null_or fsum (map (column a) filtered)) []))].
+  Proof.
+    intros Hg Hi Ho Ha Hb.
+    rewrite exec_select_whole_table; [|exact Hg|rewrite Hi; reflexivity].
+    rewrite Hi. cbn [mapM item_cells].
+    rewrite !agg_value_column by assumption. reflexivity.
+  Qed.
+End Composite.
